@@ -609,14 +609,26 @@ def multi_twist(ctx):
         ip = c.call('isprismatic-sequence', lambda: X.isprismatic)
         if ip is not None:
             c.true('isprismatic-sequence', [bool(b) for b in ip] == [False, True], ip)
+        # per-twist theta (list / ndarray) and one scalar theta for all twists, both classes
+        for ths in ([0.3, -0.7], np.array([PI / 2, 2.0]), 0.4):
+            E = c.call('exp-sequence', lambda: X.exp(ths))
+            if E is not None:
+                t0, t1 = (ths, ths) if np.isscalar(ths) else (float(ths[0]), float(ths[1]))
+                c.true('exp-sequence-length', len(E) == 2, f"len={len(E)}")
+                if len(E) == 2:
+                    c.near('exp-sequence', E[0].A, r.exp(t0).A, 4.0)
+                    c.near('exp-sequence', E[1].A, p.exp(t1).A, 4.0)
+        # accessors per twist (fixes 77cb365, a77df5a)
+        n = 3 if cls is Twist3 else 2
+        c.near('v-sequence', c.call('v-sequence', lambda: X.v), np.array([r.S[:n], p.S[:n]]), 4.0)
+        c.near('w-sequence', c.call('w-sequence', lambda: X.w), np.array([r.S[n:], p.S[n:]]) if cls is Twist3 else np.array([r.S[2], p.S[2]]), 4.0)
         if cls is Twist3:
-            for ths in ([0.3, -0.7], np.array([PI / 2, 2.0])):
-                E = c.call('exp-sequence', lambda: X.exp(ths))
-                if E is not None:
-                    c.true('exp-sequence-length', len(E) == 2, f"len={len(E)}")
-                    if len(E) == 2:
-                        c.near('exp-sequence', E[0].A, r.exp(float(ths[0])).A, 4.0)
-                        c.near('exp-sequence', E[1].A, p.exp(float(ths[1])).A, 4.0)
+            r2 = Twist3.Revolute([1, 0, 0], [0, 1, 0])
+            Y = c.call('construct', lambda: cls([r.S, r2.S]))
+            if Y is not None:
+                c.near('theta-sequence', c.call('theta-sequence', lambda: Y.theta()), [1.0, 1.0])
+                c.near('pitch-sequence', c.call('pitch-sequence', lambda: Y.pitch()), [0.0, 0.0], 4.0)
+                c.near('pole-sequence', c.call('pole-sequence', lambda: Y.pole()), np.array([r.pole(), r2.pole()]), 4.0)
 
 
 def oracle(ctx):
